@@ -5,8 +5,8 @@ for id in "$@"; do
   out=/verif/seeded/$id/confirmed.txt
   { echo "# $(date -u +%FT%TZ) tools/confirm_seeded.sh $id  (verif $(git -C /verif rev-parse --short HEAD), repo $(git -C /repo rev-parse --short HEAD))"
     /verif/tools/confirm_seeded.sh $id
-    echo "== lemmas that refuted (count)"
-    grep -E " REFUTED " /tmp/check_$id.out | awk '{print $2}' | sort | uniq -c
+    echo "== lemmas that refuted (count, canaries excluded)"
+    grep -E "^  (chx|rx) .* REFUTED " /tmp/check_$id.out | awk '{print $2}' | sort | uniq -c
     echo "== first reproduced counterexample"
     grep -m1 -A1 "REPRODUCED" /tmp/check_$id.out | cut -c1-600
   } > $out 2>&1
